@@ -188,10 +188,10 @@ def closed(mon, fname, trig, mem, desc):
                     fire(mon, fname, trig, "not-downward-closed", f"simplex {sorted(s, key=repr)} lacks face {sorted(sub, key=repr)}", desc)
 
 
-def seeds_for(rng):
+def seeds_for(rng, k=NSEEDS):
     s = rng.sample(range(0, 40), 2) + [rng.randrange(2**32) for _ in range(NSEEDS - 3)] + [None]
     rng.shuffle(s)
-    return s
+    return s[:k]
 
 
 def with_seed(rng, seed):
@@ -204,7 +204,160 @@ def with_seed(rng, seed):
 
 
 def prob(rng):
-    return rng.choice([0.0, 1.0, 0.0, 1.0, round(rng.random(), 3), round(rng.random() * 0.3, 3), 0.5])
+    """A probability with 0 and 1 over-represented, passed as Python float, numpy scalar or (for 0 and 1) Python int."""
+    p = rng.choice([0.0, 1.0, 0.0, 1.0, round(rng.random(), 3), round(rng.random() * 0.3, 3), 0.5])
+    r = rng.random()
+    if r < 0.15:
+        return np.float64(p)
+    if r < 0.3 and p in (0, 1):
+        return int(p)
+    return p
+
+
+# ---------------------------------------------------------------------------------
+# harness-side probe of `geometric` (value-dependent branches: p = 0, p = 1, tiny p): the name in the generator
+# modules' namespaces is wrapped by a pass-through that counts the class of p and of the result.  Nothing in /repo changes.
+# ---------------------------------------------------------------------------------
+GEO = Counter()
+
+
+def geo_class(p):
+    try:
+        x = float(p)
+    except Exception:
+        return "not-a-number"
+    if x == 0:
+        return "p=0"
+    if x == 1:
+        return "p=1"
+    if 0 < x < 1e-12:
+        return "0<p<1e-12"
+    if 1e-12 <= x < 1e-4:
+        return "1e-12<=p<1e-4"
+    if 1e-4 <= x < 1e-2:
+        return "1e-4<=p<1e-2"
+    if 1e-2 <= x < 1:
+        return "1e-2<=p<1"
+    return "outside-[0,1]"
+
+
+def install_geometric_probe():
+    ok = True
+    for mod in (R, U):
+        g = mod.__dict__.get("geometric")
+        if g is None:
+            ok = False
+            continue
+        if getattr(g, "_xgimon_probe", False):
+            continue
+
+        def probe(p, _g=g):
+            GEO[geo_class(p)] += 1
+            if isinstance(p, np.generic):
+                GEO["numpy-scalar"] += 1
+            v = _g(p)
+            if v == np.inf:
+                GEO["->inf"] += 1
+            elif v == 1:
+                GEO["->1"] += 1
+            return v
+
+        probe._xgimon_probe = True
+        mod.geometric = probe
+    return ok
+
+
+PROBED_GEOMETRIC = install_geometric_probe()
+
+
+def flush_geo(mon):
+    for k, v in GEO.items():
+        mon.note(f"geometric:{k}", v)
+    GEO.clear()
+
+
+# ---------------------------------------------------------------------------------
+# sparse / large parameter tuples: tiny probabilities with n chosen so that a handful of edges is expected
+# (shared with C17).  Skip sampling makes these calls fast.
+# ---------------------------------------------------------------------------------
+def np_typed(rng, x):
+    return np.float64(x) if rng.random() < 0.3 else x
+
+
+def sparse_rh(rng):
+    """fast_random_hypergraph: (n, ps, order, orders) with ps[i] ~ E / C(n, d+1), E in [2, 25]."""
+    n = rng.randint(40, 300)
+    if rng.random() < 0.4:
+        orders, order = list(range(1, rng.randint(1, 2) + 1)), None
+    else:
+        orders = sorted(rng.sample([1, 2, 3], rng.randint(1, 2)))
+        order = list(orders)
+    ps = [rng.uniform(2, 25) / comb(n, d + 1) for d in orders]
+    r = rng.random()
+    if r < 0.15 and len(ps) > 1:
+        ps[rng.randrange(len(ps))] = 0
+    elif r < 0.3 and len(ps) > 1:
+        ps[rng.randrange(len(ps))] = 1e-18  # admissible, and so small that log(1 - p) == 0 inside geometric
+    form = rng.choice(["list", "array", "np-scalars"])
+    if form == "array":
+        ps = np.array(ps, dtype=float)
+        order = None if order is None else np.array(order)
+    elif form == "np-scalars":
+        ps = [np.float64(x) for x in ps]
+    return n, ps, order, orders
+
+
+def sparse_er(rng):
+    """uniform_erdos_renyi_hypergraph: (n, m, p, p_type, multiedges) with about 2-40 expected edges."""
+    multi = rng.random() < 0.4
+    m = rng.randint(2, 4)
+    n = rng.randint(50, 500 if m < 4 else 200)
+    E = rng.uniform(2, 40)
+    p_type = rng.choice(["prob", "degree"])
+    if p_type == "prob":
+        p = E / (n**m if multi else comb(n, m))
+    else:
+        p = E * m / n
+        if n <= 120 and rng.random() < 0.3:
+            p = 1  # Python int mean degree
+    return n, m, np_typed(rng, p), p_type, multi
+
+
+def sparse_hsbm(rng):
+    m = rng.randint(2, 3)
+    nb = rng.randint(1, 3 if m == 2 else 2)
+    sizes = [rng.randint(20, 150) for _ in range(nb)]
+    p = np.zeros((nb,) * m)
+    blocks = list(product(range(nb), repeat=m))
+    for blk in blocks:
+        if rng.random() < 0.75:
+            p[blk] = rng.uniform(0.5, 8) / prod(sizes[b] for b in blk)
+    if not p.any():
+        p[blocks[0]] = 4 / prod(sizes[b] for b in blocks[0])
+    return sum(sizes), m, p, sizes
+
+
+def sparse_hppm(rng):
+    m = rng.randint(2, 3)
+    n = rng.randint(60, 400)
+    k = rng.uniform(3, 40) * m / n
+    eps = rng.choice([0.0, 1.0, 0.5, round(rng.random(), 2)])
+    rho = rng.choice([0.5, 0.3, 0.25])
+    return n, m, np_typed(rng, k), eps, rho
+
+
+def large_bipartite(rng, groups=False):
+    n1 = rng.choice([300, 1000, 3000, 6000]) + rng.randint(0, 50)
+    n2 = max(50, int(n1 * rng.choice([0.5, 1.0])))
+    k1 = {i: rng.randint(1, 3) for i in range(n1)}
+    k2 = {j: rng.randint(1, 3) for j in range(n2)}
+    if not groups:
+        return k1, k2
+    g1 = {i: rng.randrange(2) for i in k1}
+    g2 = {j: rng.randrange(2) for j in k2}
+    S = sum(k1.values())
+    omega = np.array([[S // 3, S // 6], [S // 6 if rng.random() < 0.7 else 0, S // 3]])
+    return k1, k2, g1, g2, omega
 
 
 def ptrig(ps):
@@ -217,6 +370,9 @@ def ptrig(ps):
 
 
 def record(mon, fname, params, seed, mem, boundary=False):
+    if mem is not None and len(mem) > 300:  # large networks: a digest instead of the full listing
+        mon.nontrivial((fname, short(params, 300), seed, len(mem), hash(frozenset(Counter(mem.values()).items()))))
+        return
     if mem or boundary:
         mon.nontrivial((fname, params, seed, sorted(map(lambda m: sorted(map(repr, m)), mem.values())) if mem is not None else None))
 
@@ -240,12 +396,25 @@ def _rh_params(rng):
     return n, ps, orders, orders
 
 
+INADMISSIBLE_RH = {  # argument shapes the docstring excludes; they only have to leave by an exception or return (branches of _check_input_args)
+    "ps-scalar-without-order": ((4, 0.5), {}),
+    "order-int-ps-not-float": ((4, 1, 2), {}),
+    "order-list-ps-float": ((4, 0.5, [1, 2]), {}),
+    "ps-above-1": ((4, [0.5, 1.5]), {}),
+    "ps-negative": ((4, [-0.1]), {}),
+    "negative-order": ((4, [0.5], [-1]), {}),
+}
+
+
 def g_random_hypergraphs(fname):
     def run(mon, rng):
-        n, ps, order, orders = _rh_params(rng)
+        sparse = fname == "fast_random_hypergraph" and rng.random() < 0.2
+        n, ps, order, orders = sparse_rh(rng) if sparse else _rh_params(rng)
         plist = [ps] if isinstance(ps, float) else list(ps)
         trig = ptrig(plist)
-        if rng.random() < 0.04:  # documented rejection: lengths differ
+        mon.note(f"args:{fname}:ps={type(ps).__name__},order={type(order).__name__}")
+        r = rng.random()
+        if r < 0.04:  # documented rejection: lengths differ
             try:
                 call(mon, fname, "len-mismatch", (n, [0.5, 0.5], [1]), {"seed": 1}, rejects=(ValueError,))
                 mon.ev()
@@ -253,7 +422,18 @@ def g_random_hypergraphs(fname):
             except Rejected:
                 mon.ev()
             return
-        for seed in seeds_for(rng):
+        if r < 0.08:
+            cls = rng.choice(sorted(INADMISSIBLE_RH))
+            a, kw = INADMISSIBLE_RH[cls]
+            try:
+                call(mon, fname, cls, a, dict(kw, seed=1), rejects=(ValueError, TypeError))
+                mon.note(f"inadmissible-accepted:{cls}")
+            except Rejected:
+                mon.note(f"inadmissible-rejected:{cls}")
+            return
+        if sparse:
+            mon.note(f"sparse:{fname}")
+        for seed in seeds_for(rng, 3 if sparse else NSEEDS):
             H, desc = call(mon, fname, trig, (n, ps, order), {"seed": with_seed(rng, seed)})
             nodes, mem = basic(mon, fname, trig, H, desc, range(n), sizes={d + 1 for d in orders}, nodup=True)
             for d, p in zip(orders, plist):
@@ -264,6 +444,8 @@ def g_random_hypergraphs(fname):
                 elif p == 1:
                     mon.note("clause:p=1")
                     exactly_once(mon, fname, "p=1", mem, combinations(range(n), d + 1), "not-all-edges-of-the-order", desc, size=d + 1)
+            if sparse and mem:
+                mon.note(f"sparse-nonempty:{fname}")
             record(mon, fname, (n, repr(ps), repr(order)), seed, mem, boundary=trig != "0<=p<1")
     return run
 
@@ -280,13 +462,19 @@ def g_uniform_erdos_renyi_hypergraph(mon, rng):
     fname = "uniform_erdos_renyi_hypergraph"
     multi = rng.random() < 0.4
     p_type = rng.choice(["prob", "prob", "degree"])
-    if multi:
+    sparse = rng.random() < 0.2
+    if sparse:
+        n, m, p, p_type, multi = sparse_er(rng)
+        mon.note(f"sparse:{fname}")
+    elif multi:
         m = rng.randint(1, 4)
         n = rng.randint(1, {1: 8, 2: 8, 3: 6, 4: 5}[m])
     else:
         n = rng.randint(1, 9)
         m = rng.randint(1, min(n, 4) if p_type == "degree" else min(n + 1, 5))
-    if p_type == "prob":
+    if sparse:
+        pass
+    elif p_type == "prob":
         p = prob(rng)
         if rng.random() < 0.2:
             p = int(p) if p in (0, 1) else p
@@ -299,7 +487,7 @@ def g_uniform_erdos_renyi_hypergraph(mon, rng):
         return  # rounding decides between "complete" and "rejected": not driven
     trig = ("multiedges," if multi else "") + ("p=1" if q == 1 else "p=0" if q == 0 else "p>1" if q > 1 else "0<p<1")
     kw = {"p_type": p_type, "multiedges": multi}
-    for seed in seeds_for(rng):
+    for seed in seeds_for(rng, 3 if sparse else NSEEDS):
         try:
             H, desc = call(mon, fname, trig, (n, m, p), dict(kw, seed=with_seed(rng, seed)), rejects=(XGIError,), reject_ok=q > 1)
         except Rejected:
@@ -320,6 +508,8 @@ def g_uniform_erdos_renyi_hypergraph(mon, rng):
                     fire(mon, fname, trig, "not-all-edges-of-the-order", "probability 1 did not yield every m-subset", desc)
             else:
                 exactly_once(mon, fname, trig, mem, combinations(range(n), m), "not-all-edges-of-the-order", desc)
+        if sparse and mem:
+            mon.note(f"sparse-nonempty:{fname}")
         record(mon, fname, (n, m, p, p_type, multi), seed, mem, boundary=q in (0, 1))
 
 
@@ -374,7 +564,11 @@ def g_uniform_HSBM(mon, rng):
     p = np.zeros((nb,) * m)
     for blk in product(range(nb), repeat=m):
         p[blk] = {"mixed": prob(rng), "interior": round(0.05 + 0.9 * rng.random(), 3), "zero-one": float(rng.random() < 0.5)}[style]
-    if rng.random() < 0.05:  # documented rejections
+    sparse = rng.random() < 0.2
+    if sparse:
+        n, m, p, sizes = sparse_hsbm(rng)
+        mon.note(f"sparse:{fname}")
+    elif rng.random() < 0.05:  # documented rejections
         bad = rng.choice(["n", "dim", "range"])
         args = {"n": (n + 1, m, p, sizes), "dim": (n, m + 1, p, sizes), "range": (n, m, p + 1.5, sizes)}[bad]
         try:
@@ -387,9 +581,11 @@ def g_uniform_HSBM(mon, rng):
     trig = ptrig(p)
     if rng.random() < 0.3:
         sizes = np.array(sizes)
-    for seed in seeds_for(rng):
+    for seed in seeds_for(rng, 3 if sparse else NSEEDS):
         H, desc = call(mon, fname, trig, (n, m, p, sizes), {"seed": with_seed(rng, seed)})
         mem = hsbm_check(mon, fname, trig, H, desc, n, m, p, [list(sizes)])
+        if sparse and mem:
+            mon.note(f"sparse-nonempty:{fname}")
         record(mon, fname, (n, m, p.tolist(), list(map(int, sizes))), seed, mem, boundary=trig != "0<=p<1")
 
 
@@ -400,7 +596,11 @@ def g_uniform_HPPM(mon, rng):
     rho = rng.choice([0.5, 0.5, 0.3, 0.25, 0.0, 1.0, round(rng.random(), 2)])
     eps = rng.choice([0.0, 1.0, 0.5, round(rng.random(), 2)])
     k = rng.choice([0, 1, 2, 0.5, 3, round(rng.random() * 4, 2), n, 2 * n])
-    if rng.random() < 0.05:
+    sparse = rng.random() < 0.2
+    if sparse:
+        n, m, k, eps, rho = sparse_hppm(rng)
+        mon.note(f"sparse:{fname}")
+    elif rng.random() < 0.05:
         bad = rng.choice([(n, m, k, eps, -0.1), (n, m, -1, eps, rho), (n, m, k, 1.5, rho)])
         try:
             call(mon, fname, "invalid", bad[:4], {"rho": bad[4], "seed": 0}, rejects=(XGIError,))
@@ -424,7 +624,7 @@ def g_uniform_HPPM(mon, rng):
     trig = "p>1" if pmax > 1 else ptrig(p)
     # the model is documented as an instance of uniform_HSBM; an exception caused by a block probability equal to 1 is that function's
     keyname = "uniform_HSBM" if trig == "p=1" else fname
-    for seed in seeds_for(rng):
+    for seed in seeds_for(rng, 3 if sparse else NSEEDS):
         try:
             H, desc = call(mon, fname, trig, (n, m, k, eps), {"rho": rho, "seed": with_seed(rng, seed)}, rejects=(XGIError,), reject_ok=pmax > 1, keyfn=keyname)
         except Rejected:
@@ -436,6 +636,8 @@ def g_uniform_HPPM(mon, rng):
         mem = hsbm_check(mon, fname, trig, H, desc, n, m, p, options)
         if k == 0 and mem:
             fire(mon, fname, "p=0", "edges-with-mean-degree-0", f"{len(mem)} edges with k = 0", desc)
+        if sparse and mem:
+            mon.note(f"sparse-nonempty:{fname}")
         record(mon, fname, (n, m, k, eps, rho), seed, mem, boundary=trig != "0<=p<1")
 
 
@@ -488,11 +690,14 @@ def bipartite_check(mon, fname, trig, H, desc, k1, k2):
 
 def g_chung_lu_hypergraph(mon, rng):
     fname = "chung_lu_hypergraph"
-    k1, k2 = bipartite_params(rng)
+    large = rng.random() < 0.02
+    k1, k2 = large_bipartite(rng) if large else bipartite_params(rng)
+    if large:
+        mon.note(f"sparse:{fname}")
     trig = "sums-equal" if sum(k1.values()) == sum(k2.values()) else "sums-differ"
-    for seed in seeds_for(rng):
+    for seed in seeds_for(rng, 2 if large else NSEEDS):
         H, _ = call(mon, fname, trig, (dict(k1), dict(k2)), {"seed": with_seed(rng, seed)})
-        desc = fmt_call(fname, (k1, k2), {"seed": seed})
+        desc = short(fmt_call(fname, (k1, k2), {"seed": seed}), 1500)
         mem = bipartite_check(mon, fname, trig, H, desc, k1, k2)
         record(mon, fname, (sorted(k1.items(), key=repr), sorted(k2.items(), key=repr)), seed, mem)
 
@@ -510,11 +715,14 @@ def dcsbm_params(rng):
 
 def g_dcsbm_hypergraph(mon, rng):
     fname = "dcsbm_hypergraph"
-    k1, k2, g1, g2, omega = dcsbm_params(rng)
+    large = rng.random() < 0.02
+    k1, k2, g1, g2, omega = large_bipartite(rng, groups=True) if large else dcsbm_params(rng)
+    if large:
+        mon.note(f"sparse:{fname}")
     trig = "generic"
-    for seed in seeds_for(rng):
+    for seed in seeds_for(rng, 2 if large else NSEEDS):
         H, _ = call(mon, fname, trig, (dict(k1), dict(k2), dict(g1), dict(g2), omega.copy()), {"seed": with_seed(rng, seed)})
-        desc = fmt_call(fname, (k1, k2, g1, g2, omega), {"seed": seed})
+        desc = short(fmt_call(fname, (k1, k2, g1, g2, omega), {"seed": seed}), 1500)
         mem = bipartite_check(mon, fname, trig, H, desc, k1, k2)
         for e, mm in mem.items():
             for v in mm:
@@ -946,13 +1154,24 @@ class Script:
         return v
 
 
-SCRIPT_KINDS = ("all-ones", "beyond", "first-last", "last-only", "random", "random")
+SCRIPT_KINDS = ("all-ones", "beyond", "first-last", "last-only", "random", "random")  # on ranges above 4000 indices all-ones / random become "sparse-random"
 
 
 def run_script(kind, T, rng):
     """Draws for one skip-sampling run over T admissible indices (0..T-1), ending with the draw that leaves the range."""
     if T <= 0:
         return [rng.randint(1, 3)]
+    if T > 4000 and kind in ("all-ones", "random"):
+        kind = "sparse-random"
+    if kind == "sparse-random":  # at most 25 distinct indices of a huge range, the first and the last one over-represented
+        idxs = set(rng.randrange(T) for _ in range(rng.randint(1, 25)))
+        if rng.random() < 0.5:
+            idxs.add(0)
+        if rng.random() < 0.5:
+            idxs.add(T - 1)
+        idxs = sorted(idxs)
+        gaps = [idxs[0] + 1] + [b - a for a, b in zip(idxs, idxs[1:])]
+        return gaps + [T - idxs[-1] + rng.randint(0, 3)]
     if kind == "all-ones":
         return [1] * (T + 1)
     if kind == "beyond":
@@ -980,6 +1199,23 @@ def simulate(values, pos, T):
         idx += values[pos]
         pos += 1
     return out, pos
+
+
+def decode_sampled(mon, which, tuples, idxs, par, valid):
+    """Beyond the exhaustive bound: the decodes of distinct scripted indices must be valid and pairwise distinct."""
+    name = DECODE_NAMES[which]
+    mon.ev()
+    seen = {}
+    for i, t in zip(idxs, tuples):
+        t = tuple(t)
+        if not valid(t):
+            mon.fail(f"{name}|valid-index|image-outside-the-target-set", f"{name} maps index {i} of {par} to {t}", f"{name}({i}, {par})")
+            raise Fired()
+        if t in seen:
+            mon.fail(f"{name}|valid-index|not-injective", f"{name} maps indices {seen[t]} and {i} of {par} to {t}", f"{name}({i}, {par})")
+            raise Fired()
+        seen[t] = i
+    mon.note(f"decode-sampled:{which}")
 
 
 def injected(mon, fname, module, args, kwargs, script):
@@ -1019,11 +1255,20 @@ def inj_fast_random(mon, rng, kind):
     if dec is None:
         mon.note("unobserved:inject:no-decoder:comb")
         return
-    n = rng.randint(1, 8)
-    orders = rng.sample(range(0, 4), rng.randint(1, 2))
-    ps = [rng.choice([0.5, 0.5, 0.2, 0.0, 1.0]) for _ in orders]
-    if all(p in (0, 1) for p in ps):
-        ps[0] = 0.5
+    large = rng.random() < 0.3
+    if large:
+        n = rng.randint(50, 400)
+        orders = rng.sample(range(1, 4), rng.randint(1, 2))
+        ps = [rng.choice([0.5, 1e-5, np.float64(3e-7), 0]) for _ in orders]
+        if not any(ps):
+            ps[0] = 1e-5
+        mon.note("inject-large:" + fname)
+    else:
+        n = rng.randint(1, 8)
+        orders = rng.sample(range(0, 4), rng.randint(1, 2))
+        ps = [rng.choice([0.5, 0.5, 0.2, 0.0, 1.0]) for _ in orders]
+        if all(p in (0, 1) for p in ps):
+            ps[0] = 0.5
     values, expected = [], []
     for d, p in zip(orders, ps):
         T = comb(n, d + 1)
@@ -1033,13 +1278,16 @@ def inj_fast_random(mon, rng, kind):
             s = run_script(kind, T, rng)
             idxs, pos = simulate(s + [BIG], 0, T)
             values += s[:pos]
-            expected += [frozenset(dec(i, n, d + 1)) for i in idxs]
+            tuples = [dec(i, n, d + 1) for i in idxs]
+            if large:
+                decode_sampled(mon, "comb", tuples, idxs, (n, d + 1), lambda t, n=n, k=d + 1: len(t) == k and all(0 <= a < n for a in t) and all(a < b for a, b in zip(t, t[1:])))
+            expected += [frozenset(t) for t in tuples]
     script = Script(values)
     r = injected(mon, fname, R, (n, ps, orders), {"seed": rng.randrange(100)}, script)
     if r is None:
         return
     H, desc = r
-    if inj_compare(mon, fname, kind, H, desc, expected, script, n) and kind == "all-ones":
+    if inj_compare(mon, fname, kind, H, desc, expected, script, n) and kind == "all-ones" and not large:
         H1, d1 = call(mon, fname, "p=1", (n, [1.0 if 0 < p < 1 else p for p in ps], orders), {"seed": 0})
         mon.ev()
         if Counter(observe(H1)[1].values()) != Counter(observe(H)[1].values()):
@@ -1053,7 +1301,13 @@ def inj_erdos_renyi(mon, rng, kind):
     if dec is None:
         mon.note("unobserved:inject:no-decoder:" + ("prod" if multi else "comb"))
         return
-    if multi:
+    large = rng.random() < 0.3
+    if large:
+        m = rng.randint(2, 4)
+        n = rng.randint(20, 300)
+        T = n**m if multi else comb(n, m)
+        mon.note("inject-large:" + fname)
+    elif multi:
         m = rng.randint(1, 4)
         n = rng.randint(1, 5)
         T = n**m
@@ -1064,13 +1318,20 @@ def inj_erdos_renyi(mon, rng, kind):
     s = run_script(kind, T, rng)
     idxs, pos = simulate(s + [BIG], 0, T)
     script = Script(s[:pos])
-    expected = [frozenset(dec(i, n, m)) for i in idxs]
+    tuples = [dec(i, n, m) for i in idxs]
+    if large:
+        if multi:
+            decode_sampled(mon, "prod", tuples, idxs, (n, m), lambda t: len(t) == m and all(0 <= a < n for a in t))
+        else:
+            decode_sampled(mon, "comb", tuples, idxs, (n, m), lambda t: len(t) == m and all(0 <= a < n for a in t) and all(a < b for a, b in zip(t, t[1:])))
+    expected = [frozenset(t) for t in tuples]
     expected = [e for e in expected if len(e) == m]
-    r = injected(mon, fname, U, (n, m, 0.5), {"multiedges": multi, "seed": rng.randrange(100)}, script)
+    pval = rng.choice([0.5, 2e-6, np.float64(5e-5)]) if large else 0.5
+    r = injected(mon, fname, U, (n, m, pval), {"multiedges": multi, "seed": rng.randrange(100)}, script)
     if r is None:
         return
     H, desc = r
-    if inj_compare(mon, fname, kind, H, desc, expected, script, n) and kind == "all-ones":
+    if inj_compare(mon, fname, kind, H, desc, expected, script, n) and kind == "all-ones" and not large:
         H1, d1 = call(mon, fname, "p=1", (n, m, 1.0), {"multiedges": multi, "seed": 0})
         mon.ev()
         if Counter(observe(H1)[1].values()) != Counter(observe(H)[1].values()):
@@ -1083,15 +1344,20 @@ def inj_hsbm(mon, rng, kind):
     if dec is None:
         mon.note("unobserved:inject:no-decoder:partition")
         return
+    large = rng.random() < 0.3
     m = rng.randint(1, 3)
     nb = rng.randint(1, 2)
-    sizes = [rng.randint(0, 4) if rng.random() < 0.15 else rng.randint(1, 4) for _ in range(nb)]
+    if large:
+        sizes = [rng.randint(20, 150) for _ in range(nb)]
+        mon.note("inject-large:" + fname)
+    else:
+        sizes = [rng.randint(0, 4) if rng.random() < 0.15 else rng.randint(1, 4) for _ in range(nb)]
     n = sum(sizes)
     part = hsbm_partition(sizes)
     p = np.zeros((nb,) * m)
     blocks = list(product(range(nb), repeat=m))
     for blk in blocks:
-        p[blk] = rng.choice([0.5, 0.5, 0.3, 0.0])
+        p[blk] = rng.choice([0.5, 1e-6, 3e-5, 0.0]) if large else rng.choice([0.5, 0.5, 0.3, 0.0])
     if not p.any():
         p[blocks[0]] = 0.5
     values, expected = [], []
@@ -1102,8 +1368,10 @@ def inj_hsbm(mon, rng, kind):
             s = run_script(kind, T, rng)
             idxs, pos = simulate(s + [BIG], 0, T)
             values += s[:pos]
-            for i in idxs:
-                t = dec(i, psz, m)
+            tuples = [dec(i, psz, m) for i in idxs]
+            if large:
+                decode_sampled(mon, "partition", tuples, idxs, tuple(psz), lambda t, psz=psz: len(t) == m and all(0 <= a < z for a, z in zip(t, psz)))
+            for t in tuples:
                 e = frozenset(part[blk[r]][t[r]] for r in range(m))
                 if len(e) == m:
                     expected.append(e)
@@ -1143,8 +1411,8 @@ INJECT = [inj_fast_random, inj_erdos_renyi, inj_hsbm, inj_fast_random, inj_erdos
 # ---------------------------------------------------------------------------------
 def plan(tier):
     if tier == "quick":
-        return {"decode": len(DECODE_CASES), "grid": 1000 * len(GRID), "inject": 800 * len(INJECT)}
-    return {"decode": len(DECODE_CASES), "grid": 100000 * len(GRID), "inject": 100000 * len(INJECT)}
+        return {"decode": len(DECODE_CASES), "grid": 800 * len(GRID), "inject": 600 * len(INJECT)}
+    return {"decode": len(DECODE_CASES), "grid": 70000 * len(GRID), "inject": 60000 * len(INJECT)}
 
 
 def floors(tier):
@@ -1162,8 +1430,16 @@ def floors(tier):
     for which, cases in (("comb", COMB_PAIRS), ("prod", PROD_PAIRS), ("partition", PART_SIZES)):
         if decoder(which) is not None:
             f[f"decode:{which}"] = len(cases)
+    for fn in ("fast_random_hypergraph", "uniform_erdos_renyi_hypergraph", "uniform_HSBM", "uniform_HPPM"):
+        f[f"sparse-nonempty:{fn}"] = 100  # sparse / large regime: tiny probabilities, n up to 500, at least one edge produced
+    if PROBED_GEOMETRIC:  # value classes of the argument of `geometric` that were actually drawn with
+        for k in ("p=0", "p=1", "0<p<1e-12", "1e-12<=p<1e-4", "1e-4<=p<1e-2", "1e-2<=p<1", "numpy-scalar", "->inf"):
+            f[f"geometric:{k}"] = 100
     if "geometric" in U.__dict__ and "geometric" in R.__dict__ and all(decoder(w) is not None for w in DECODE_NAMES):
+        for w in DECODE_NAMES:
+            f[f"decode-sampled:{w}"] = 50
         for fn in ("fast_random_hypergraph", "uniform_erdos_renyi_hypergraph", "uniform_HSBM"):
+            f[f"inject-large:{fn}"] = 100
             f[f"inject:{fn}"] = 80
         for kind in set(SCRIPT_KINDS):
             f[f"inject-script:{kind}"] = 30
@@ -1200,5 +1476,6 @@ def run_case(mon, kind, idx, rng):
     except Fired:
         pass
     finally:
+        flush_geo(mon)
         random.setstate(st)
         np.random.set_state(npst)
